@@ -242,16 +242,20 @@ def r11_2(ctx):
     ctx.require(nb is not None, 'loop body block not found')
     problems = {}
     seen_states = []
+    # the message variable: what the callback call passes as its message
+    marg = cu.strip_casts(f, f.call_args(call)[1])
+    MSG = marg['name'] if marg is not None and marg['k'] == 'ref' else None
+    ctx.require(MSG is not None, 'the rule callback\'s message argument is not a variable')
     flagM = prog.macro_value('SCAN_FLAGS_REPORT_RULES_MATCHING')
     flagNM = prog.macro_value('SCAN_FLAGS_REPORT_RULES_NOT_MATCHING')
 
     def step(n, facts):
-        if n['k'] == 'decl' and n.get('name') == 'message' and n.get('c'):
+        if n['k'] == 'decl' and n.get('name') == MSG and n.get('c'):
             v = cu.const_of(f.kid(n, 0))
             return frozenset(x for x in facts if x[0] != 'msg') | {('msg', v)}
         if n['k'] == 'bin' and n['op'] == '=':
             l = f.kid(n, 0)
-            if l is not None and l['k'] == 'ref' and l['name'] == 'message':
+            if l is not None and l['k'] == 'ref' and l['name'] == MSG:
                 v = cu.const_of(cu.strip_casts(f, f.kid(n, 1)))
                 return frozenset(x for x in facts if x[0] != 'msg') | {('msg', v)}
         if n is call:
@@ -309,7 +313,7 @@ def r11_2(ctx):
                 return setf(facts, 'flagM', 1 if pol else 0)
             if v == flagNM:
                 return setf(facts, 'flagNM', 1 if pol else 0)
-        if c['k'] == 'bin' and c['op'] in ('!=', '==') and f.show(f.kid(c, 0)) == 'message':
+        if c['k'] == 'bin' and c['op'] in ('!=', '==') and f.show(f.kid(c, 0)) == MSG:
             v = cu.const_of(cu.strip_casts(f, f.kid(c, 1)))
             if v == 0:
                 nonzero = (c['op'] == '!=') == pol
@@ -374,6 +378,14 @@ def r11_3(ctx):
     problems = {}
     reached = set()
     top = ctx.fn('yr_scanner_scan_mem_blocks', 'libyara/scanner.c')
+    # the variable whose value the function returns
+    RES = None
+    for n0 in f.all_nodes():
+        if n0['k'] == 'ret' and n0.get('c') and not any(
+                m.startswith(('FAIL_ON_', 'GOTO_EXIT_ON_')) for m in f.macros(n0)):
+            e0 = cu.strip_casts(f, f.kid(n0, 0))
+            if e0 is not None and e0['k'] == 'ref':
+                RES = e0['name']
 
     def step(n, facts):
         d = dict(facts)
@@ -386,7 +398,7 @@ def r11_3(ctx):
             return None
         if n['k'] == 'bin' and n['op'] == '=':
             l = f.kid(n, 0)
-            if l is not None and l['k'] == 'ref' and l['name'] == 'result':
+            if l is not None and l['k'] == 'ref' and l['name'] == RES:
                 v = cu.const_of(cu.strip_casts(f, f.kid(n, 1)))
                 return frozenset(x for x in facts if x[0] != 'result') | {('result', v)}
         if n['k'] == 'ret':
@@ -396,7 +408,7 @@ def r11_3(ctx):
                 want = 0 if r == 'ABORT' else ECB
                 e = f.kid(n, 0)
                 got = cu.const_of(cu.strip_casts(f, e)) if e is not None else None
-                if got is None and e is not None and f.show(e) == 'result':
+                if got is None and e is not None and RES is not None and f.show(e) == RES:
                     got = d.get('result')
                 if got != want:
                     problems.setdefault(r + ':return-code',
@@ -681,6 +693,12 @@ def r11_4(ctx):
                 names = case_of_line.get(node['i'], [])
                 ok = any(nm in allowed_cases[fld] for nm in names)
                 why = 'handler of %s' % '/'.join(names)
+            elif cu.only_called_from(f, set([vmf.name])):
+                # a static helper of the VM: the write belongs to the handlers that call it
+                sites = [c for c in vmf.calls() if c.get('callee') == f.name]
+                hn = set(nm for c in sites for nm in case_of_line.get(c['i'], ['?']))
+                ok = bool(sites) and all(nm in allowed_cases[fld] for nm in hn)
+                why = 'helper %s of the handler(s) of %s' % (f.name, '/'.join(sorted(hn)))
             else:
                 ok, why = False, f.name
             ctx.ob('R11.4', '%s:writes:%s:%s' % (f.name, fld, why.replace(' ', '-')), ok, f.loc(node),
@@ -696,6 +714,149 @@ FIXTURES = {
 }
 
 
+def r11_5(ctx):
+    """a global rule that is not reported as matching marks its namespace as
+    unsatisfied: in the handler that ends a rule (OP_MATCH_RULE) every path sets the
+    rule's match bit, or found the rule not global, or sets the namespace's bit; in the
+    handler that starts one (OP_INIT_RULE) the same on the paths that skip the rule"""
+    prog = ctx.prog
+    vmf, vm = vm_groups(ctx)
+    from .C04 import _post_switch_block
+    byname = {}
+    for v, (labels, stmts) in vm.items():
+        for l in labels:
+            byname[cu.case_label_name(l)] = (labels, stmts)
+    # static helpers of the VM that, on every path, either find their rule not global or
+    # mark its namespace (a "this rule is false" helper)
+    marking_helpers = set()
+    for h in cu.family(prog, vmf)[1:]:
+        okpaths = [True]
+        seen_any = [False]
+
+        def hstep(n, facts, h=h):
+            if n['k'] == 'bin' and n['op'] == '|=' and 'yr_bitmask_set' in h.macros(n) and \
+                    any(x['k'] == 'member' and x['fld'] == 'ns_unsatisfied_flags' for x in h.walk(h.kid(n, 0))):
+                seen_any[0] = True
+                return facts | {'nsset'}
+            if n['k'] == 'ret':
+                if not (facts & {'nsset', 'notglobal'}):
+                    okpaths[0] = False
+                return None
+            return facts
+
+        def hedge(b, term, cond, idx, succ, facts, h=h):
+            if succ == h.exit and not (facts & {'nsset', 'notglobal'}):
+                last = h.node(h.blocks[b]['e'][-1]) if h.blocks[b]['e'] else None
+                if last is None or last['k'] != 'ret':
+                    okpaths[0] = False
+            pol = paths.branch_polarity(h, term, idx)
+            if pol is None or cond is None:
+                return facts
+            c, p2 = paths.normalise_cond(h, cond, pol)
+            if c is None:
+                return facts
+            ms = set(h.macros(c)) | set(m for x in h.walk(c) for m in h.macros(x))
+            if 'RULE_IS_GLOBAL' in ms:
+                return (facts | {'notglobal'}) if not p2 else (facts - {'notglobal'})
+            return facts
+        try:
+            paths.explore(h, set(), hstep, hedge, max_states=64)
+        except paths.Budget:
+            continue
+        if seen_any[0] and okpaths[0]:
+            marking_helpers.add(h.name)
+    for opname, only_when in (('OP_MATCH_RULE', None), ('OP_INIT_RULE', 'skipped')):
+        if opname not in byname:
+            ctx.require(ctx.fixture, '%s has no handler' % opname)
+            continue
+        labels, stmts = byname[opname]
+        start = cu.label_block(vmf, labels[0])
+        sw = None
+        for a in vmf.ancestors(labels[0]):
+            if a['k'] == 'switch':
+                sw = a
+                break
+        post = _post_switch_block(vmf, sw)
+        ctx.require(start is not None and post is not None, 'handler of %s not delimited' % opname)
+        bad = []
+        # the variable that says "this rule is skipped": the first argument of jmp_if
+        # (a constant true argument means the path through that call is the skipped one)
+        skipvar = None
+        always = set()
+        for x in cu.group_nodes(vmf, stmts):
+            if x['k'] == 'call' and x.get('callee') == 'jmp_if':
+                a0 = cu.strip_casts(vmf, vmf.call_args(x)[0])
+                if a0 is not None and a0['k'] == 'ref':
+                    skipvar = a0['name']
+                elif a0 is not None and (cu.const_of(a0) or 0) != 0:
+                    always.add(x['i'])
+
+        def which_mask(n, fn=None):
+            fn = fn or vmf
+            if n['k'] == 'bin' and n['op'] == '|=' and 'yr_bitmask_set' in fn.macros(n):
+                flds = set(x['fld'] for x in fn.walk(fn.kid(n, 0)) if x['k'] == 'member')
+                if 'rule_matches_flags' in flds:
+                    return 'matchset'
+                if 'ns_unsatisfied_flags' in flds:
+                    return 'nsset'
+            if n['k'] == 'call' and n.get('callee') in marking_helpers:
+                return 'nsset'
+            return None
+
+        from ..vmroles import vm_roles
+        STOP = vm_roles(prog, vmf).stop
+
+        def step(n, facts):
+            m = which_mask(n)
+            if m:
+                return facts | {m}
+            if n['i'] in always:
+                return facts | {'skipped'}
+            if n['k'] == 'bin' and n['op'] == '=' and STOP is not None:
+                l = cu.strip_casts(vmf, vmf.kid(n, 0))
+                if l is not None and l['k'] == 'ref' and l['name'] == STOP and \
+                        cu.const_of(cu.strip_casts(vmf, vmf.kid(n, 1))) == 1:
+                    return facts | {'aborting'}      # evaluation is being abandoned with an error
+            if n['k'] == 'ret':
+                return None
+            return facts
+
+        def edge(b, term, cond, idx, succ, facts, only_when=only_when):
+            if succ == post:
+                need = (only_when is None or only_when in facts) and 'aborting' not in facts
+                if need and not (facts & {'matchset', 'nsset', 'notglobal'}):
+                    bad.append(term if term is not None else vmf.node(vmf.blocks[b]['e'][-1]))
+                return None
+            pol = paths.branch_polarity(vmf, term, idx)
+            if pol is None or cond is None:
+                return facts
+            c, p2 = paths.normalise_cond(vmf, cond, pol)
+            if c is None:
+                return facts
+            ms = set(vmf.macros(c)) | set(m for x in vmf.walk(c) for m in vmf.macros(x))
+            if 'RULE_IS_GLOBAL' in ms:
+                if not p2:
+                    return facts | {'notglobal'}
+                return facts - {'notglobal'}
+            cs = cu.strip_casts(vmf, c)
+            if skipvar is not None and cs is not None and cs['k'] == 'ref' and cs['name'] == skipvar:
+                return (facts | {'skipped'}) if p2 else (facts - {'skipped'})
+            return facts
+        try:
+            paths.explore(vmf, set(), step, edge, start_block=start, max_states=512)
+        except paths.Budget as e:
+            ctx.require(False, str(e))
+        if only_when == 'skipped':
+            ctx.require(skipvar is not None or always or ctx.fixture, 'OP_INIT_RULE: the skip condition is not recognised')
+        ctx.ob('R11.5', '%s:global-rule-not-matching-marks-namespace' % opname, not bad,
+               vmf.loc(bad[0]) if bad else vmf.loc(labels[0]),
+               'every path of %s that leaves a rule unmatched%s found it not global or sets its '
+               'namespace\'s unsatisfied bit' % (opname, ' (skipped)' if only_when else '') if not bad else
+               'a path through %s leaves a rule unmatched without marking the namespace of a global '
+               'rule as unsatisfied: the other rules of that namespace are reported as matching although '
+               'a global rule does not hold' % opname)
+
+
 def run(ctx):
     r11_1(ctx)
     ctx.floor('R11.1', 12)
@@ -705,3 +866,5 @@ def run(ctx):
     ctx.floor('R11.3', 6)
     r11_4(ctx)
     ctx.floor('R11.4', 3)
+    r11_5(ctx)
+    ctx.floor('R11.5', 2)
